@@ -135,6 +135,7 @@ pub fn run(cfg: &Cfg, seed: u64) -> (Arc<World>, Vec<Obs>, Vec<usize>) {
         let wrapper = b.build();
         let (n, ticks) = (cfg.n, cfg.ticks);
         let restart = seed % 5 == 0;
+        let alternate = (seed >> 3) % 3 == 0;
         // with an unbounded timeout the slow check (11 ms) is not cut off: observe after it
         let observe_after = if cfg.huge_timeout { TIMEOUT_US + 7000 } else { TIMEOUT_US + 1000 };
         let obs = o2.clone();
@@ -155,11 +156,19 @@ pub fn run(cfg: &Cfg, seed: u64) -> (Arc<World>, Vec<Obs>, Vec<usize>) {
                         statuses.push(wrapper.get_status(&format!("res{i}")).await.map(st).unwrap_or(9));
                     }
                     let mut picks = vec![];
-                    for _ in 0..n {
-                        picks.push((1u8, wrapper.get_usable().await));
-                    }
-                    for _ in 0..n {
-                        picks.push((0u8, wrapper.get_healthy().await));
+                    if alternate {
+                        // a caller that uses both accessors in turn
+                        for _ in 0..n {
+                            picks.push((1u8, wrapper.get_usable().await));
+                            picks.push((0u8, wrapper.get_healthy().await));
+                        }
+                    } else {
+                        for _ in 0..n {
+                            picks.push((1u8, wrapper.get_usable().await));
+                        }
+                        for _ in 0..n {
+                            picks.push((0u8, wrapper.get_healthy().await));
+                        }
                     }
                     lock(&obs).push(Obs { tick, statuses, picks });
                 }
